@@ -324,14 +324,10 @@ where
   T: Send + Clone + 'static,
 {
   fn drop(&mut self) {
-    if let Some(dispatcher) = self.dispatcher.upgrade() {
-      let topics_to_unsubscribe: Vec<K> = self.subscriptions.lock().drain().collect();
-
-      for topic in topics_to_unsubscribe {
-        self.unsubscribe(&topic);
-      }
-
-      dispatcher.receiver_count.fetch_sub(1, Ordering::Relaxed);
+    // Same as the sync receiver: a handle that was already closed has unsubscribed and given up its
+    // receiver count; doing it again on drop would decrement the count twice.
+    if !self.closed.swap(true, Ordering::AcqRel) {
+      self.close_internal();
     }
   }
 }
